@@ -541,6 +541,6 @@ def run(ctx):
     ctx.floor("random_sequences", ctx.pick(1500, 30000))
     for h in ("update_stamped", "create_added", "create_no_overwrite", "change_applied", "spew_on_empty",
               "gulp_none_ignored", "bad_name_rejected"):
-        ctx.floor(h, ctx.pick(50, 500))
-    ctx.floor("steps_rejected", ctx.pick(3000, 30000))
-    ctx.floor("distinct_nontrivial", ctx.pick(5000, 50000))
+        ctx.floor(h, ctx.pick(500, 1800))
+    ctx.floor("steps_rejected", ctx.pick(9000, 70000))
+    ctx.floor("distinct_nontrivial", ctx.pick(14000, 90000))
